@@ -15,6 +15,7 @@ import Ymq.Props.C18C19
 #print axioms Ymq.C18.emit_hom
 #print axioms Ymq.C18.emit_hom_map
 #print axioms Ymq.C18.relLine_val
+#print axioms Ymq.C18.filter_hom
 #print axioms Ymq.C18.reduced_enum_sound
 #print axioms Ymq.C18.reduced_enum_complete
 #print axioms Ymq.C18.reduced_enum_nodup
